@@ -141,11 +141,21 @@ def run_case(case):
         rr = gen.rng_for(case["seed"], "C06w", case["idx"])
         if nx2 >= 8 and ny2 >= 8:
             q3 = np.zeros((ny2, nx2))
-            bj, bi = slice(ny2 // 4 + 1, ny2 - ny2 // 4 - 1), slice(nx2 // 4 + 1, nx2 - nx2 // 4 - 1)
+            if rr.random() < 0.5:
+                bj, bi = slice(ny2 // 4 + 1, ny2 - ny2 // 4 - 1), slice(nx2 // 4 + 1, nx2 - nx2 // 4 - 1)
+                s_x, s_y = int(rr.integers(-(nx2 // 4), nx2 // 4 + 1)), int(rr.integers(-(ny2 // 4), ny2 // 4 + 1))
+            else:
+                # a source in the south-west corner and a point west / south of it - up to a quarter of the window outside the map
+                # (negative coordinates): the source then moves north-east and stays inside
+                bj, bi = slice(1, max(2, ny2 // 4)), slice(1, max(2, nx2 // 4))
+                s_x, s_y = -int(rr.integers(0, 3 * nx2 // 4 - 1)), -int(rr.integers(0, 3 * ny2 // 4 - 1))
+                if rr.random() < 0.3:
+                    (s_x, s_y) = (s_x, 0) if rr.random() < 0.5 else (0, s_y)
             q3[bj, bi] = rr.uniform(0.5, 1.5, size=q3[bj, bi].shape)
-            s_x, s_y = int(rr.integers(-(nx2 // 4), nx2 // 4 + 1)), int(rr.integers(-(ny2 // 4), ny2 // 4 + 1))
             if s_x == 0 and s_y == 0:
-                s_x = 1
+                s_x = -1
+            if nx2 // 2 + s_x == 0 and ny2 // 2 + s_y == 0:
+                s_x += 1   # the point (0, 0) is the documented "no re-centring" request
             counters["solver_calls"] += 2
             _, cw, fw = solve.solve(Sh, q3, lv2, precision=prec, srf_bg_conc=bg, meas_pt=((nx2 // 2 + s_x) * dx2, (ny2 // 2 + s_y) * dy2))
             _, cm, fm = solve.solve(Sh, np.roll(q3, (-s_y, -s_x), axis=(0, 1)), lv2, precision=prec, srf_bg_conc=bg)
